@@ -200,7 +200,7 @@ def adapter_lines(rng, tier):
 def adapter_oracle(case, impl):
     chip = re.search(r"chip=(\S+)", case).group(1)
     ops = [p.strip() for p in case.split("|")][1:]
-    for op, o in zip(ops, impl.split(" ; ")):
+    for op, o in zip(ops, [x for x in impl.split(" ; ") if not x.startswith("new ")]):
         a = op.split()
         if o.startswith("PANIC"):
             return {"kind": "adapter panicked", "op": op}
@@ -243,6 +243,7 @@ def run(rep, tier, rng):
                 rep.violation(v, concrete=True)
     rep.cov["operations_decoded_by_the_datasheet_oracle"] = nops
     al = adapter_lines(rng, tier)
+    core.diff_stage(rep, "X:C17:lorawan-adapter", al, lambda c, i, m: adapter_oracle(c, i))
     ao = core.run_lines(core.harness_bin(), al)
     bad = 0
     for c, o in zip(al, ao):
